@@ -20,6 +20,7 @@ def py_env():
     e.update(PYTHONPATH=REPO + ":" + VERIF, PYTHONHASHSEED="0", JAX_PLATFORMS="cpu",
              XLA_FLAGS="--xla_cpu_multi_thread_eigen=false",
              OMP_NUM_THREADS="2", JUMANJI_VERIF="1", PYTHONWARNINGS="ignore", HF_HUB_OFFLINE="1")
+    e["VERIF_HARNESS_HASH"] = harness_hash()
     return e
 
 
@@ -45,7 +46,19 @@ def tree_hash():
     return _tree_hash
 
 
+_harness_hash = None
+
+
 def harness_hash():
+    """hash of the harness + models; computed once per check run and handed to the per-environment subprocesses, so that
+    an edit made while a run is in progress cannot make parent and children disagree about the cache directory"""
+    global _harness_hash
+    if _harness_hash is None:
+        _harness_hash = os.environ.get("VERIF_HARNESS_HASH") or _compute_harness_hash()
+    return _harness_hash
+
+
+def _compute_harness_hash():
     h = hashlib.sha256()
     for sub in ("harness", "coq/Base", "coq/Model"):
         for d, dirs, files in sorted(os.walk(os.path.join(VERIF, sub))):
